@@ -170,9 +170,11 @@ def worker(ctx):
             # ---- every older version decodes -------------------------------
             maps = {id(m): m for m in new_msgs}
             cur_map = dict(maps)  # id(new def) -> def in current older version
+            maps_by_version = {0: dict(maps)}
             for vi in range(1, len(versions)):
                 old_root, memo = versions[vi]
                 cur_map = {nid: memo[id(d)] for nid, d in cur_map.items() if id(d) in memo}
+                maps_by_version[vi] = dict(cur_map)
                 try:
                     mods_old = sut_py.PyModules(dirs[vi][0], old_root)
                 except Exception as e:
@@ -187,7 +189,20 @@ def worker(ctx):
                         want = ref.project(m_old, m_new, v)
                         extended = ref.nbits(m_old) != ref.nbits(m_new)
                         w = {**wit, "message": m_new.name, "older_version": f"v{vi}", "value": v}
-                        for src, buf in bufs.items():
+                        # one process, senders of SEVERAL versions: the decoder's own version first, then every version between, then the
+                        # newest - whatever a decoder remembers about "the" peer is wrong for the next one.  All of them carry the same
+                        # values for the fields this version knows.
+                        mixed = {}
+                        try:
+                            mixed[f"sender-v{vi}-own-version"] = ref.encode(m_old, want)
+                            for vj in range(vi - 1, 0, -1):
+                                m_mid = maps_by_version[vj].get(id(m_new))
+                                if m_mid is not None and ref.nbits(m_mid) != ref.nbits(m_old):
+                                    mixed[f"sender-v{vj}"] = ref.encode(m_mid, ref.project(m_mid, m_new, v))
+                        except Exception:
+                            mixed = {}
+                        res.count("py_old_decodes_of_other_sender_versions", len(mixed))
+                        for src, buf in list(mixed.items()) + list(bufs.items()) + list(mixed.items())[:1]:
                             res.count("py_old_decodes")
                             if extended:
                                 res.count("py_old_decodes_of_extended_messages")
@@ -206,7 +221,7 @@ def worker(ctx):
                                 if key == "py-enum-default-or":
                                     res.count("excluded_known_C02_finding")
                                     continue
-                                res.violation("fwd-py:" + key, f"{m_new.name}: v{vi} Python decoder raised {type(e).__name__}: {e} on {src} bytes of the newest version",
+                                res.violation("fwd-py:" + key, f"{m_new.name}: v{vi} Python decoder raised {type(e).__name__}: {e} on {src} bytes",
                                               {**w, "source": src, "bytes": buf.hex(), "traceback": tb[-1200:]})
                                 continue
                             if got != want or problems:
@@ -263,5 +278,5 @@ if __name__ == "__main__":
               "generated Python module and (sample) C driver (guard pages, ASan); oracle = projection of the value on the older schema; "
               "every case contains >=1 extension step; distinct by sha256 of all version texts"),
         assumptions=["vlib/ref.py project()/encode() are the specification", "Go runtime not executed (no toolchain): same formula by reading only"],
-        required_counters=["py_old_decodes_of_extended_messages", "c_old_decodes", "extension_steps"],
+        required_counters=["py_old_decodes_of_extended_messages", "py_old_decodes_of_other_sender_versions", "c_old_decodes", "extension_steps"],
     )
